@@ -17,6 +17,7 @@ EXPLANATION_ADDED2 = " R5 also takes the keepalive arm's teardown flag."
 EXPLANATION = EXPLANATION + " Added while testing against seeded changes: " + EXPLANATION_ADDED + EXPLANATION_ADDED2
 EXPLANATION = EXPLANATION + ' Round 10: R3 also requires the keepalive setters to store their argument.'
 EXPLANATION = EXPLANATION + ' Rounds 14-15: R1 also requires every path of the Pong arm to pass the timestamp store (no filter on Pongs); (S8) adapter faithfulness.'
+EXPLANATION = EXPLANATION + ' Round 19: (R6) the period of the ping timer is the configured interval itself.'
 ASSUMPTIONS = ["tokio::time::Interval ticks every period; TimestampProvider::duration_since is monotone"]
 NOT_DECIDED = "the numeric bounds T and T+I, late pongs (timing)"
 THOROUGH_CONFIGS = ["mux-std-only"]
